@@ -170,6 +170,13 @@ class DryRun(object):
     describe = ('putData(dryRun=True) for every writer x destination x data, and MibCompiler.compile(writeMibs=False / dryRun=True) '
                 'through the real writers: the directory tree is unchanged')
 
+    VIA = {'compile-dryRun': {'dryRun': True}, 'compile-writeMibs-off': {'writeMibs': False},
+           'compile-dryRun-writeMibs-on': {'dryRun': True, 'writeMibs': True},
+           'compile-dryRun-off-writeMibs-off': {'dryRun': False, 'writeMibs': False},
+           'compile-dryRun-None-writeMibs-off': {'dryRun': None, 'writeMibs': False},
+           'compile-dryRun-writeMibs-off': {'dryRun': True, 'writeMibs': False},
+           'compile-writeMibs-off-ignoreErrors': {'writeMibs': False, 'ignoreErrors': True, 'rebuild': True, 'genTexts': True}}
+
     def blocks(self, tier):
         return [{'w': w} for w in WRITERS]
 
@@ -177,7 +184,8 @@ class DryRun(object):
         for d in DESTS:
             for k in DATA:
                 yield {'w': block['w'], 'dest': d, 'data': k, 'via': 'putData'}
-            for via in ('compile-dryRun', 'compile-writeMibs-off'):
+            # every way of spelling 'do not write' in the options of compile(): each option given / given as False / left out
+            for via in sorted(self.VIA):
                 yield {'w': block['w'], 'dest': d, 'data': 'short', 'via': via}
 
     def run_case(self, case):
@@ -199,7 +207,7 @@ class DryRun(object):
             texts['TEST-MIB'] = text
             comp.addSources(env.DictReader(texts))
             comp.addSearchers(env.StubSearcher(*env.BASE_NAMES))
-            opts = {'dryRun': True} if case['via'] == 'compile-dryRun' else {'writeMibs': False}
+            opts = dict(self.VIA[case['via']])
             res = comp.compile('TEST-MIB', **opts)
             after = faultfs.snapshot(root)
             vs = []
